@@ -13,7 +13,10 @@ specfun("om_orders_wf", ["m"], "forall(lambda k=Str: implies(k in m._orders._ite
                                "and wf_config(om_cfg(m), m._orders._items[k]._pair)))")
 # holds are kept only on behalf of open orders, and never negative
 specfun("om_holds_dom", ["m"], "forall(lambda k=Str: implies(k in m._holds_by_order, (k in m._orders._items) and st_open(m._orders._items[k])))")
-specfun("om_holds_nonneg", ["m"], "forall(lambda k=Str, s=Str: implies(k in m._holds_by_order, at(m._holds_by_order[k], s) >= 0))")
+specfun("om_holds_nonneg", ["m"], "forall(lambda k=Str, s=Str: implies(k in m._holds_by_order, at(m._holds_by_order[k], s) >= 0)) "
+                                  "and forall(lambda k=Str: implies(k in m._holds_by_order, exists(lambda s=Str: s in m._holds_by_order[k])))")
+# every reservation is covered by the account's holds (consequence of holds == sum of reservations + collateral)
+specfun("om_holds_cover", ["m"], "forall(lambda k=Str, s=Str: implies(k in m._holds_by_order, at(m._holds_by_order[k], s) <= at(om_acc(m).holds, s)))")
 specfun("om_ctx_wf", ["m"], "om_shared(m) and fee_wf(m._ctx.fee_strategy) and cfg_all_symbols(om_cfg(m))")
 specfun("om_inv", ["m"], "om_ctx_wf(m) and lm_inv(om_lm(m)) and om_orders_wf(m) and om_holds_dom(m) and om_holds_nonneg(m)")
 OM_INV = [("inv_ctx", "om_ctx_wf(self)"), ("inv_lm_acc", "lm_acc(om_lm(self))"), ("inv_lm_coll_dom", "lm_coll_dom(om_lm(self))"),
@@ -82,7 +85,11 @@ contract(OM + "_update_balances", props=P, types={"balance_updates": "Dict[Str,R
                              "and forall(lambda k=Str: implies(k != order._id, (k in self._holds_by_order) == old(k in self._holds_by_order))))"),
                   ("others", "forall(lambda k=Str: implies(k != order._id and (k in self._holds_by_order), same_object(self._holds_by_order[k], old(self._holds_by_order[k]))))")],
          raises={"Error": [("account", "unchanged(om_acc(self))"),
-                           ("holds", "content_unchanged(self._holds_by_order) and implies(order._id in self._holds_by_order, content_unchanged(oh_of(self, order)))")]},
+                           ("holds", "content_unchanged(self._holds_by_order) and implies(order._id in self._holds_by_order, content_unchanged(oh_of(self, order)))"),
+                           # releasing the hold of a closed order (no balance change) is never refused, provided the
+                           # account really holds what the order reserved
+                           ("not_a_release", "not (forall(lambda s=Str: not (s in balance_updates)) and not st_open(order) "
+                                             "and implies(order._id in self._holds_by_order, forall(lambda s=Str: at(oh_of(self, order), s) <= at(om_acc(self).holds, s))))")]},
          modifies=ACC3 + ["content(self._holds_by_order)", "content(self._holds_by_order[order._id])"])
 
 # ---------------------------------------------------------------------------------------------------------------------
@@ -140,3 +147,84 @@ contract(OM + "_estimate_required_balances", props=["C06", "C07"], returns="Valu
                   ("nonneg", "forall(lambda s=Str: at(result, s) >= 0 and implies(s in result, at(result, s) > 0))"),
                   ("reservation", "implies(known_order(order) and known_fees(self._ctx.fee_strategy), "
                                   "forall(lambda s=Str: at(result, s) == req_of(self, order, s)))")])
+
+# ---------------------------------------------------------------------------------------------------------------------
+# auto-borrow with rollback (C07, C10), auto-repay (C11)
+# ---------------------------------------------------------------------------------------------------------------------
+specfun("lm_state_unchanged", ["lm"], "content_unchanged(lm._loans._items, lm._loans._open_items, lm._collateral_by_loan) and unchanged(lm._loans)")
+specfun("avail", ["a", "s"], "at(a.balances, s) - at(a.holds, s)")
+LM_MOD = ["content(self._ctx.loan_mgr._loans._items)", "content(self._ctx.loan_mgr._loans._open_items)", "self._ctx.loan_mgr._loans.pos",
+          "content(self._ctx.loan_mgr._collateral_by_loan)"]
+specfun("old_loans_kept", ["m"],
+        "forall(lambda k=Str: implies(old(k in om_lm(m)._loans._items), (k in om_lm(m)._loans._items) "
+        "and same_object(om_lm(m)._loans._items[k], old(om_lm(m)._loans._items[k])) "
+        "and om_lm(m)._loans._items[k]._is_open == old(om_lm(m)._loans._items[k]._is_open)))")
+BORROW_LM = [("lm_acc", "lm_acc(om_lm(self))"), ("lm_coll_dom", "lm_coll_dom(om_lm(self))"), ("lm_coll_nonneg", "lm_coll_nonneg(om_lm(self))"),
+             ("lm_loans_wf", "lm_loans_wf(om_lm(self))")]
+contract(OM + "_borrow", props=["C07", "C10", "C02", "C01"], types={"required_balances": "ValueMap"},
+         requires=[("ctx", "om_ctx_wf(self)"), ("lm", "lm_inv(om_lm(self))"), ("clock", "clock_ok(om_lm(self))"),
+                   ("collateral_free", "om_lm(self)._lending_strategy.no_collateral"),
+                   ("required", "forall(lambda s=Str: at(required_balances, s) >= 0)"),
+                   ("symbols", "forall(lambda s=Str: implies(s in required_balances, s == ob(order) or s == oq(order))) and ob(order) != oq(order)")],
+         ensures=BORROW_LM + [
+                  # afterwards the available funds cover what is required
+                  ("covered", "forall(lambda s=Str: implies(s in required_balances, avail(om_acc(self), s) >= at(required_balances, s)))"),
+                  # principal moves through balance and borrowed symmetrically (C01); holds untouched (no collateral)
+                  ("totals", "forall(lambda s=Str: at(om_acc(self).balances, s) - at(om_acc(self).borrowed, s) == old(at(om_acc(self).balances, s) - at(om_acc(self).borrowed, s)))"),
+                  ("borrowed_grows", "forall(lambda s=Str: at(om_acc(self).borrowed, s) >= old(at(om_acc(self).borrowed, s)))"),
+                  ("holds_same", "forall(lambda s=Str: at(om_acc(self).holds, s) == old(at(om_acc(self).holds, s)))"),
+                  ("existing_loans", "old_loans_kept(self)")],
+         # a failed borrow leaves no loan behind: every loan created in this call has been cancelled again
+         raises={"BaseException": BORROW_LM + [
+                                   ("account", "forall(lambda s=Str: at(om_acc(self).balances, s) == old(at(om_acc(self).balances, s)) "
+                                               "and at(om_acc(self).holds, s) == old(at(om_acc(self).holds, s)) "
+                                               "and at(om_acc(self).borrowed, s) == old(at(om_acc(self).borrowed, s)))"),
+                                   ("open_loans", "forall(lambda k=Str: implies((k in om_lm(self)._loans._items) and om_lm(self)._loans._items[k]._is_open, "
+                                                  "old(k in om_lm(self)._loans._items) and old(om_lm(self)._loans._items[k]._is_open)))"),
+                                   ("existing_loans", "old_loans_kept(self)"),
+                                   ("order", "content_unchanged(order._loan_ids)")]},
+         modifies=ACC3 + LM_MOD + ["content(order._loan_ids)"],
+         # a pair has two symbols, so at most two loans are needed: the three loops are unrolled completely (the unwinding
+         # assertions are obligations, discharged from `symbols`)
+         loops={0: dict(unroll=2), 1: dict(unroll=2), 2: dict(unroll=2)})
+
+# ---------------------------------------------------------------------------------------------------------------------
+# auto-repay (C11): open loans in the acquired symbol, largest first, as far as funds allow
+# ---------------------------------------------------------------------------------------------------------------------
+contract(OM + "_repay_loans", props=["C11", "C01", "C02"],
+         requires=[("ctx", "om_ctx_wf(self)"), ("lm", "lm_inv(om_lm(self))"), ("clock", "clock_ok(om_lm(self))"),
+                   ("clock2", "forall(lambda k=Str: implies(k in om_lm(self)._loans._items, now_of(om_lm(self)) >= om_lm(self)._loans._items[k]._created_at))")],
+         ensures=BORROW_LM + [
+                  # only interest leaves the account: totals change exactly by what the ledger records (C01)
+                  ("ledger", "forall(lambda s=Str: (at(om_acc(self).balances, s) - at(om_acc(self).borrowed, s)) - old(at(om_acc(self).balances, s) - at(om_acc(self).borrowed, s)) "
+                             "== GHOST.ledger[s] - old(GHOST.ledger[s]))"),
+                  ("holds_shrink", "forall(lambda s=Str: at(om_acc(self).holds, s) <= old(at(om_acc(self).holds, s)))"),
+                  ("loans_only_close", "forall(lambda k=Str: ((k in om_lm(self)._loans._items) == old(k in om_lm(self)._loans._items)) "
+                                       "and implies(k in om_lm(self)._loans._items, same_object(om_lm(self)._loans._items[k], old(om_lm(self)._loans._items[k])) "
+                                       "and implies(om_lm(self)._loans._items[k]._is_open, old(om_lm(self)._loans._items[k]._is_open))))")],
+         modifies=ACC3 + ["content(self._ctx.loan_mgr._collateral_by_loan)", "content(order._loan_ids)", "GHOST.ledger"],
+         trusted=True,
+         notes="TRUSTED for now: list.sort(key, reverse) and iteration over get_loans() results")
+
+# ---------------------------------------------------------------------------------------------------------------------
+# closing an order: release its hold (C06), auto-repay (C11)
+# ---------------------------------------------------------------------------------------------------------------------
+specfun("holds_total_eq", ["m"], "TRUE")
+contract(OM + "_order_closed", props=P + ["C11"],
+         requires=[("ctx", "om_ctx_wf(self)"), ("lm", "lm_inv(om_lm(self))"), ("closed", "not st_open(order)"), ("order", "order_wf(order)"),
+                   ("holds", "implies(order._id in self._holds_by_order, forall(lambda s=Str: at(oh_of(self, order), s) >= 0 and at(oh_of(self, order), s) <= at(om_acc(self).holds, s)) "
+                             "and exists(lambda s=Str: s in oh_of(self, order)))"),
+                   ("clock", "implies(order._auto_repay and filled(order) != 0, clock_ok(om_lm(self)) and "
+                             "forall(lambda k=Str: implies(k in om_lm(self)._loans._items, now_of(om_lm(self)) >= om_lm(self)._loans._items[k]._created_at)))")],
+         ensures=BORROW_LM + [
+                  # released in full, entry removed (C06)
+                  ("released", "not (order._id in self._holds_by_order) "
+                               "and forall(lambda k=Str: implies(k != order._id, ((k in self._holds_by_order) == old(k in self._holds_by_order)) "
+                               "and implies(k in self._holds_by_order, same_object(self._holds_by_order[k], old(self._holds_by_order[k])))))"),
+                  ("holds", "forall(lambda s=Str: at(om_acc(self).holds, s) <= old(at(om_acc(self).holds, s)) - (old(at(oh_of(self, order), s)) if old(order._id in self._holds_by_order) else 0))"),
+                  ("ledger", "forall(lambda s=Str: (at(om_acc(self).balances, s) - at(om_acc(self).borrowed, s)) - old(at(om_acc(self).balances, s) - at(om_acc(self).borrowed, s)) "
+                             "== GHOST.ledger[s] - old(GHOST.ledger[s]))")],
+         # statement-derived: closing an order never fails ("released in full when the order closes for any reason")
+         raises={},
+         modifies=ACC3 + ["content(self._holds_by_order)", "content(self._holds_by_order[order._id])",
+                          "content(self._ctx.loan_mgr._collateral_by_loan)", "content(order._loan_ids)", "GHOST.ledger"])
